@@ -12,9 +12,9 @@ Theorem C03_schedule :
          (bime : B -> bool) (bset_ime : B -> bool -> B) (bpending : B -> N) (back : B -> N -> B),
     (forall b a, btrig b a = b) -> (forall b, bcorrupt b = b) ->
   forall s b,
-    starts gen_tables B bime bpending s b -> wf s -> byte_bus B brd -> defined_at B brd s b ->
+    starts gen_tables B bime bpending s b -> wf s -> byte_bus B brd -> defined_at B brd bset_ime s b ->
     dtrace_of (trace (fst (fst (run_instr gen_tables B brd bwr btrig bcorrupt bime bset_ime bpending back s b)))) =
-    snd (fst (spec_instr B brd bwr bset_ime bime bpending (arch_of s) b)).
+    snd (fst (spec_instr B brd bwr bset_ime bime bpending (arch_of (set_eip false s)) (commit B bset_ime s b))).
 Proof. exact instr_schedule. Qed.
 Print Assumptions C03_schedule.
 
